@@ -322,6 +322,13 @@ class Interp:
                     if v[0] in ("i", "b"):
                         bb = _target(t, int(v[1]))
                         continue
+                    if v[0] == "choice" and all(a[0] in ("i", "b") for a in v[2]):
+                        for alt in v[2]:
+                            p2 = path.fork()
+                            p2.assume[v[1]] = _short(alt)
+                            env2 = {l: _subst(val, v, alt) for l, val in env.items()}
+                            stack.append((_target(t, int(alt[1])), env2, p2))
+                        break
                     ty = self.f.ty(t["discr_ty"])
                     if ty.k == "bool":
                         if self._noise(body, t["span"]):
